@@ -87,7 +87,7 @@ def main(table_path, out_path):
             nontrivial += 1
         results = {}
         for maximize in (False, True):
-            for scale in (SCALES if fam in ("far", "nbcfar", "skipsame") else [1.0]):
+            for scale in (SCALES if fam in ("far", "nbcfar", "skipsame", "skipsame3") else [1.0]):
                 n_eval += 1
                 inds = {}
                 for cand in c["cands"]:
@@ -130,6 +130,21 @@ def main(table_path, out_path):
                         lvl2.append(ch)
                     sig += f"cands={[(x['par'], x['pos']) for x in c['cands']]} seeds={[(s['par'], s['pos']) for s in c['seeds']]}"
                     clause = "C10_SkipSameSprout"
+                elif fam == "skipsame3":
+                    # parents on two levels: root (children A, B with their own sprout seeds) and A (children on level 2)
+                    flt = SkipSameSprout()
+
+                    def seed_ind(pos):
+                        return Individual(np.array([pos[0] * scale, pos[1] * scale]), PROB[maximize], 1.0)
+                    A._sprout_seed, B._sprout_seed = seed_ind(c["seedA"]), seed_ind(c["seedB"])
+                    root.children += [A, B]
+                    for s in c["seeds"]:
+                        ch = FakeDeme(f"k{len(lvl2)}", 2, True, seed=seed_ind(s["pos"]))
+                        parents[s["par"]].children.append(ch)
+                        lvl2.append(ch)
+                    sig += (f"seedA={c['seedA']} seedB={c['seedB']} cands={[(x['par'], x['pos']) for x in c['cands']]} "
+                            f"seeds(level2)={[(s['par'], s['pos']) for s in c['seeds']]}")
+                    clause = "C10_SkipSameSprout"
                 elif fam == "far":
                     ordv = {1: 1, 2: 2, 3: np.inf}[c["ord"]]
                     flt = FarEnough(c["thr"] * scale, ordv)
@@ -148,11 +163,17 @@ def main(table_path, out_path):
                 cd = {parents[p]: DemeCandidates(individuals=list(v), features=DemeFeatures(
                     nbc_mean_distance=(c["mean"] * scale if fam == "nbcfar" else None))) for p, v in inds.items()}
                 try:
+                    if fam == "skipsame3":      # the mechanism may list the parents in either order
+                        rev = {k: DemeCandidates(individuals=list(v.individuals), features=v.features)
+                               for k, v in reversed(list(cd.items()))}
+                        got_rev = ids_of(flt(rev, tree))
                     res = flt(cd, tree)
                 except Exception as ex:  # noqa: BLE001
                     bad(clause, sig, {"exception": repr(ex)[:200]})
                     continue
                 got = ids_of(res)
+                if fam == "skipsame3" and json.dumps(got_rev) not in ok:
+                    bad(clause, sig + " (parents listed in reverse order)", {"got": got_rev, "acceptable": sorted(ok)[:6]})
                 gk = json.dumps(got)
                 results[(maximize, scale)] = gk
                 out_inds = [i for dc in res.values() for i in dc.individuals]
